@@ -106,16 +106,35 @@ def page_check(cx, what, key_prefix, witness):
     return False
 
 
+def step_get(view, step):
+    if step[0] == "i":
+        return view[step[1]]
+    if step[2] >= 2:
+        # member of an anonymous aggregate nested in an anonymous aggregate: no view attribute
+        # is generated for it (reported once per type); the name based API knows it
+        return view.get_field(step[1])
+    return getattr(view, step[1])
+
+
+def step_set(view, step, val):
+    if step[0] == "i":
+        view[step[1]] = val
+    elif step[2] >= 2:
+        view.set_field(step[1], val)
+    else:
+        setattr(view, step[1], val)
+
+
 def navigate(view, path):
     """follow @path (all but the last step) through the views; returns (parent view, last step)"""
     for step in path[:-1]:
-        view = getattr(view, step[1]) if step[0] == "f" else view[step[1]]
+        view = step_get(view, step)
     return view, path[-1]
 
 
 def read_leaf(view, path):
     parent, last = navigate(view, path)
-    return getattr(parent, last[1]) if last[0] == "f" else parent[last[1]]
+    return step_get(parent, last)
 
 
 def norm(val):
@@ -132,18 +151,29 @@ def same_value(node, got, want):
 
 
 def pstr(path):
-    return "".join((".%s" % s[1]) if s[0] == "f" else ("[%d]" % s[1]) for s in path)
+    return "".join((".%s" % st[1]) if st[0] == "f" else ("[%d]" % st[1]) for st in path)
 
 
 def one_type(cx, gen):
-    T, M, rng, rec = cx.T, cx.M, cx.rng, cx.rec
+    M, rec = cx.M, cx.rec
     top = gen.struct(0)
+    try:
+        one_type_body(cx, gen, top)
+    except RecursionError as exc:
+        if M.self_ptr_in_union(top):
+            rec.count("union_self_ptr_types")
+            rec.fail("RecursionError: Union holding a pointer to Self (Union.__repr__/__eq__ follow the pointer)",
+                     "%r for %s" % (exc, top.descr()[:600]), dict(type=top.descr()))
+        else:
+            rec.fail("RecursionError without a Self pointer in a Union", repr(exc), dict(type=top.descr()))
+
+
+def one_type_body(cx, gen, top):
+    T, M, rng, rec = cx.T, cx.M, cx.rng, cx.rec
     rec.count("types")
     ks = M.kinds(top)
     for k in ks:
         rec.count("kind:" + k)
-    if any(not n for n, _ in top.fields) or "anon" in top.descr():
-        pass
     if "_:" in top.descr():
         rec.count("kind:anonymous")
     descr = top.descr()
@@ -151,7 +181,11 @@ def one_type(cx, gen):
     try:
         ty = top.mk(T)
         View = ty.lval
+    except RecursionError:
+        raise
     except Exception as exc:
+        if isinstance(exc, RecursionError):
+            raise
         rec.fail("type construction raises %s" % type(exc).__name__, "%r for %s" % (exc, descr), wit0)
         return
     if top.size > OBJ_HI - OBJ_LO:
@@ -168,17 +202,35 @@ def one_type(cx, gen):
     try:
         sizes = (ty.size, View.sizeof(), view.get_size(), len(view))
     except Exception as exc:
+        if isinstance(exc, RecursionError):
+            raise
         rec.fail("sizeof raises %s" % type(exc).__name__, repr(exc), wit0)
         return
     if any(s != top.size for s in sizes):
         rec.fail("sizeof differs from the model", "sizes %r, model %d for %s" % (sizes, top.size, descr), wit0)
     all_leaves = M.leaves(top)
     inner = M.inner_nodes(top)
+    # view attributes of anonymous members
+    hidden = sorted(set(p[0][1] for p, _, _ in all_leaves + inner if p[0][2] >= 2))
+    for p, _, _ in all_leaves + inner:
+        if p[0][0] == "f" and 1 <= p[0][2]:
+            rec.count("anon_members_checked")
+    missing = [n for n in hidden if not hasattr(type(view), n)]
+    if missing:
+        rec.fail("member of an anonymous aggregate nested in an anonymous aggregate has no view attribute",
+                 "%s of %s: get_field/set_field know it, attribute access does not (assignment would only set "
+                 "a python attribute)" % (missing, descr), wit0)
+    exposed1 = sorted(set(p[0][1] for p, _, _ in all_leaves + inner if p[0][2] == 1))
+    miss1 = [n for n in exposed1 if not hasattr(type(view), n)]
+    if miss1:
+        rec.fail("member of an anonymous aggregate has no view attribute", "%s of %s" % (miss1, descr), wit0)
     for step, child, off in top.children():
         try:
             got = ty.get_offset(step[1])
             got2 = view.get_addr(step[1]) - base
         except Exception as exc:
+            if isinstance(exc, RecursionError):
+                raise
             rec.fail("get_offset raises %s" % type(exc).__name__, "%r field %s" % (exc, step[1]), wit0)
             continue
         rec.count("offsets_checked")
@@ -191,6 +243,8 @@ def one_type(cx, gen):
             sub = read_leaf(view, path)
             a, s = sub.get_addr(), sub.get_size()
         except Exception as exc:
+            if isinstance(exc, RecursionError):
+                raise
             rec.fail("sub-view raises %s (%s)" % (type(exc).__name__, node.kind),
                      "%r at %s" % (exc, pstr(path)), wit0)
             continue
@@ -205,6 +259,8 @@ def one_type(cx, gen):
             try:
                 got = norm(read_leaf(view, path))
             except Exception as exc:
+                if isinstance(exc, RecursionError):
+                    raise
                 rec.fail("read raises %s (%s leaf)" % (type(exc).__name__, node.kind),
                          "%r reading %s after %s" % (exc, pstr(path), tag), wit0)
                 continue
@@ -221,6 +277,7 @@ def one_type(cx, gen):
     for _ in range(nops):
         rec.ev()
         r = rng.random()
+        rec.distinct("%s/%f" % (descr, r))
         try:
             if r < 0.40 and all_leaves:
                 op_leaf(cx, view, base, top, all_leaves, wit0)
@@ -269,7 +326,7 @@ def op_leaf(cx, view, base, top, all_leaves, wit0):
                extent=[addr, addr + node.size])
     try:
         if last[0] == "f":
-            if rng.random() < 0.3 and hasattr(parent, "set_field"):
+            if last[2] >= 2 or (rng.random() < 0.3 and hasattr(parent, "set_field")):
                 parent.set_field(last[1], val)
                 how = "set_field"
                 rec.count("op:set_field")
@@ -285,6 +342,8 @@ def op_leaf(cx, view, base, top, all_leaves, wit0):
             parent[idx] = val
             rec.count("op:leaf_index")
     except Exception as exc:
+        if isinstance(exc, RecursionError):
+            raise
         rec.fail("leaf write raises %s (%s, %s)" % (type(exc).__name__, node.kind, how),
                  "%r writing %r to %s" % (exc, val, pstr(path)), wit)
         return
@@ -294,6 +353,8 @@ def op_leaf(cx, view, base, top, all_leaves, wit0):
     try:
         got = norm(read_leaf(view, path))
     except Exception as exc:
+        if isinstance(exc, RecursionError):
+            raise
         rec.fail("read raises %s (%s leaf)" % (type(exc).__name__, node.kind), repr(exc), wit)
         return
     rec.count("roundtrips")
@@ -331,11 +392,10 @@ def op_array(cx, view, base, inner, wit0):
                    extent=[addr, addr + node.size])
         rec.count("op:array_list")
         try:
-            if last[0] == "f":
-                setattr(parent, last[1], [v for v, _ in vals])
-            else:
-                parent[last[1]] = [v for v, _ in vals]
+            step_set(parent, last, [v for v, _ in vals])
         except Exception as exc:
+            if isinstance(exc, RecursionError):
+                raise
             rec.fail("array list assignment raises %s" % type(exc).__name__, repr(exc), wit)
             return
         apply(cx, addr, b"".join(e for _, e in vals))
@@ -362,7 +422,11 @@ def op_array(cx, view, base, inner, wit0):
     try:
         arr[sl] = [v for v, _ in vals]
     except Exception as exc:
-        rec.fail("slice assignment raises %s (%s, %d-byte elements)" % (type(exc).__name__, cls, min(es, 2)),
+        if isinstance(exc, RecursionError):
+            raise
+        rec.fail("slice assignment raises %s (%s%s)" % (
+            type(exc).__name__, cls, "" if cls == "open stop" else (", 1-byte elements" if es == 1 else
+                                                                     ", multi-byte elements")),
                  "%r for %s[%r] of length %d" % (exc, pstr(path), sl, node.n), wit)
         return
     apply(cx, addr + a * es, b"".join(e for _, e in vals))
@@ -370,6 +434,8 @@ def op_array(cx, view, base, inner, wit0):
     try:
         got = [norm(x) for x in arr[sl]]
     except Exception as exc:
+        if isinstance(exc, RecursionError):
+            raise
         rec.fail("slice read raises %s (%s)" % (type(exc).__name__, cls), repr(exc), wit)
         return
     want = [node.elem.dec(e) for _, e in vals]
@@ -390,6 +456,8 @@ def op_aggregate(cx, view, base, ty, top, inner, wit0):
     try:
         src = type(sub)(cx.vm, src_addr)
     except Exception as exc:
+        if isinstance(exc, RecursionError):
+            raise
         rec.fail("view construction raises %s (%s)" % (type(exc).__name__, node.kind), repr(exc), wit0)
         return
     raw = bytes(cx.mirror[src_addr - PAGE: src_addr - PAGE + node.size])
@@ -397,18 +465,15 @@ def op_aggregate(cx, view, base, ty, top, inner, wit0):
     wit = dict(wit0, op="aggregate copy", path=pstr(path), kind=node.kind, extent=[addr, addr + node.size])
     rec.count("op:aggregate_copy")
     try:
-        if node.kind == "BitField" and rng.random() < 0.5:
-            # a BitField member can also be assigned its backing number
+        if node.kind == "BitField":
+            # a BitField member is assigned its backing number (BitField.set takes a number)
             num = node.num.dec(raw)
-            if last[0] == "f":
-                setattr(parent, last[1], num)
-            else:
-                parent[last[1]] = num
-        elif last[0] == "f":
-            setattr(parent, last[1], src)
+            step_set(parent, last, num)
         else:
-            parent[last[1]] = src
+            step_set(parent, last, src)
     except Exception as exc:
+        if isinstance(exc, RecursionError):
+            raise
         rec.fail("aggregate assignment raises %s (%s)" % (type(exc).__name__, node.kind),
                  "%r assigning %s" % (exc, pstr(path)), wit)
         return
@@ -428,6 +493,8 @@ def op_memset(cx, view, base, top, inner, wit0):
     try:
         sub.memset(byte)
     except Exception as exc:
+        if isinstance(exc, RecursionError):
+            raise
         rec.fail("memset raises %s (%s)" % (type(exc).__name__, node.kind), repr(exc), wit)
         return
     apply(cx, addr, byte * node.size)
@@ -454,11 +521,11 @@ def op_ptr(cx, view, base, top, all_leaves, wit0):
         if rng.random() < 0.3:
             mp = read_leaf(view, path)
             mp.val = target
-        elif last[0] == "f":
-            setattr(parent, last[1], target)
         else:
-            parent[last[1]] = target
+            step_set(parent, last, target)
     except Exception as exc:
+        if isinstance(exc, RecursionError):
+            raise
         rec.fail("pointer write raises %s" % type(exc).__name__, repr(exc), wit)
         return
     rec.count("op:ptr_value")
@@ -477,6 +544,8 @@ def op_ptr(cx, view, base, top, all_leaves, wit0):
             return
         tgt = mp.deref
     except Exception as exc:
+        if isinstance(exc, RecursionError):
+            raise
         rec.fail("pointer deref raises %s (%s)" % (type(exc).__name__, node.dst_kind), repr(exc), wit)
         return
     if tgt.get_addr() != target:
@@ -487,7 +556,7 @@ def op_ptr(cx, view, base, top, all_leaves, wit0):
         s = rand_str(rng, node.dst)
         write_str(cx, tgt, target, s, node.dst, dict(wit, op="Str through pointer"))
         return
-    dnode = top if node.dst_kind == "self" else node.dst
+    dnode = node.dst
     # deref write: copy another instance
     src_addr = PAGE + AUX + rng.randrange(0, 0x300)
     raw = bytes(cx.mirror[src_addr - PAGE: src_addr - PAGE + dnode.size])
@@ -501,6 +570,8 @@ def op_ptr(cx, view, base, top, all_leaves, wit0):
             src = type(tgt)(cx.vm, src_addr)
             mp.deref = src
     except Exception as exc:
+        if isinstance(exc, RecursionError):
+            raise
         rec.fail("deref write raises %s (%s)" % (type(exc).__name__, node.dst_kind), repr(exc), wit2)
         return
     rec.count("op:ptr_deref_write")
@@ -525,6 +596,8 @@ def op_cast(cx, view, base, top, wit0):
         v = num.rand(rng)
         cv.val = v
     except Exception as exc:
+        if isinstance(exc, RecursionError):
+            raise
         rec.fail("cast_field raises %s" % type(exc).__name__, repr(exc), wit)
         return
     if cv.get_addr() != addr:
@@ -559,6 +632,8 @@ def op_oob(cx, view, base, inner, wit0):
         page_check(cx, "refused index %d" % idx, "refused out-of-bounds index", wit)
         return
     except Exception as exc:
+        if isinstance(exc, RecursionError):
+            raise
         rec.fail("out-of-bounds index raises %s" % type(exc).__name__, repr(exc), wit)
         return
     # accepted: the write must at least stay inside the array (it cannot)
@@ -595,6 +670,8 @@ def write_str(cx, mstr, addr, s, enc, wit):
     try:
         mstr.val = s
     except Exception as exc:
+        if isinstance(exc, RecursionError):
+            raise
         rec.fail("Str write raises %s (%s)" % (type(exc).__name__, enc), repr(exc), wit)
         return
     apply(cx, addr, raw)
@@ -604,6 +681,8 @@ def write_str(cx, mstr, addr, s, enc, wit):
         got, size = mstr.val, mstr.get_size()
         vsize = mstr.get_type().value_size(s)
     except Exception as exc:
+        if isinstance(exc, RecursionError):
+            raise
         rec.fail("Str read raises %s (%s)" % (type(exc).__name__, enc), repr(exc), wit)
         return
     if got != s:
@@ -623,6 +702,8 @@ def str_case(cx):
         try:
             ms = T.Str(enc).lval(cx.vm, addr)
         except Exception as exc:
+            if isinstance(exc, RecursionError):
+                raise
             rec.fail("Str view construction raises %s" % type(exc).__name__, repr(exc), dict(encoding=enc))
             continue
         write_str(cx, ms, addr, rand_str(rng, enc), enc, dict(op="standalone Str", addr=hex(addr)))
